@@ -183,7 +183,7 @@ CHECKS["C17"] = dict(
     text="The trace sink is called from exactly one site, the scope-bound agent's destructor, iff the tracer that was "
          "current when the accepted call started is non-null; the agent is created on the accepted path from "
          "tracer_obj() and the candidate's location and text, records all parameters before the actions, the return "
-         "value or the exception (what() before unknown), and owns its record (no shared state across nested calls); "
+         "value or the exception (what() before unknown; the actions and the return handler run lexically inside the try block whose catch-all records it), and owns its record (no shared state across nested calls); "
          "tracers save and restore their predecessor and cannot be copied; only set_tracer writes the current tracer.",
     design_ref="DESIGN.md section 4, C17", note="Not decided: text layout; non-nested tracer lifetimes (C14 finding).")
 CHECKS["C18"] = dict(
@@ -194,14 +194,14 @@ CHECKS["C18"] = dict(
          "is printed on the other; tuple, pair and collection streamers insert only separators directly and print "
          "every element through print(), so the guard holds at every nesting depth; stream_sentry exchanges width / "
          "flags / fill with 0 / dec|left / ' ' and restores each; every direct insertion of a leaf or of hex-dump "
-         "bytes is dominated by a live sentry; opaque values are dumped as sizeof(T) bytes from their address; "
+         "bytes is dominated by a live sentry; opaque values are dumped as sizeof(T) bytes from their address: the byte walk covers exactly [begin, begin+size) once each in address order (span + for_each / range-for, or a counted index loop), every byte is read as unsigned char and reaches a numeric inserter only through types that represent 0..255; "
          "dispatch traits hold over the listed type family.",
     design_ref="DESIGN.md section 4, C18", note="Not decided: hex-dump digits and line breaks for every size.")
 
 CHECKS["C14"] = dict(
     technique="census of pointer/reference members against a borrow table with per-kind structural rules (detach in "
               "the referent's destructor, guarded use), new-reaches-owner data-flow, who-may-delete, loop-order checks, "
-              "suspension-point analysis of library coroutines, abstract interpretation of the list primitives over "
+              "suspension-point analysis of library coroutines and lifetime of what their reference parameters are bound to, abstract interpretation of the list primitives over "
               "canonical ring shapes (SHAPE)",
     text="Every pointer-like member of every library class is classified (unclassified = analysis broken) and its kind's "
          "rule holds: nodes unlink in their destructor on every path, handles are contained in their handler, the "
@@ -218,7 +218,8 @@ CHECKS["C20"] = dict(
     text="Coroutine-returning mock functions use the one generic dispatch (so all call-time obligations of C01-C08, C16, "
          "C17 are evaluated on them too); the handler coroutine yields each element of its own yield list in list order "
          "with no early exit and then co_returns the return expression exactly once, evaluating clauses inside the "
-         "coroutine body; CO_YIELD appends to, and CO_RETURN/CO_THROW share, the expectation's single yield list for "
+         "coroutine body (the body may be a same-class coroutine the handler plainly forwards to, whose reference "
+         "parameters must then not be bound to temporaries or locals of the forwarder); CO_YIELD appends to, and CO_RETURN/CO_THROW share, the expectation's single yield list for "
          "every clause order; detection traits hold for eager/lazy tasks, operator co_await tasks and generators; all "
          "legal clause permutations compile and misuse is rejected with the documented text.",
     design_ref="DESIGN.md section 4, C20",
